@@ -23,6 +23,9 @@ PURE_NAMES = ("len", "is_empty", "capacity", "as_ptr", "as_ref", "deref", "borro
               "fetch_sub", "compare_exchange", "store", "swap")
 
 
+BYTE_TYPES = ("u8", "[u8]", "core::mem::MaybeUninit<u8>", "[core::mem::MaybeUninit<u8>]", "buf::uninit_slice::UninitSlice", "()", "i8", "core::ffi::c_void")
+
+
 def _norm(e):
     """canonical object an access path starts from / goes through: refs and derefs erased"""
     if not isinstance(e, tuple) or not e:
@@ -98,6 +101,9 @@ class Summaries:
             l = a["pl"]["l"]
             ty = b.locals[l]["ty"] if not a["pl"]["p"] else ""
             if ty.startswith("&mut") or ty.startswith("*mut"):
+                pointee = ty.split("mut", 1)[1].strip()
+                if pointee in BYTE_TYPES:
+                    continue        # a pointer / slice of plain bytes: what is written through it is buffer contents, not anybody's bookkeeping
                 muts.append((i, a))
         if not muts:
             return out
